@@ -199,6 +199,17 @@ class MHLHistory:
 
         return all_paths
 
+    def set_of_directory_paths(self) -> Set[str]:
+        all_paths = set()
+        for hash_list in self.hash_lists:
+            for media_hash in hash_list.media_hashes:
+                if media_hash.is_directory:
+                    all_paths.add(os.path.join(self.get_root_path(), media_hash.path))
+        for child_history in self.child_histories:
+            all_paths.update(child_history.set_of_directory_paths())
+
+        return all_paths
+
     def renamed_path_with_previous_path(self):
         all_paths = {}
         for hash_list in self.hash_lists:
